@@ -1292,13 +1292,24 @@ fn sig_marker_in_trimmed_margin(c: &Case, f: &Facts) -> bool {
     let (lo, hi) = (col.saturating_sub(r).max(1), col.saturating_add(r));
     let from = l.saturating_sub(2).max(1);
     let to = (l + 2).min(lines.len());
-    (from..=to).any(|k| {
+    let wide = (from..=to).any(|k| {
         let cs: Vec<char> = lines[k - 1].chars().collect();
         let shown: Vec<char> = cs.iter().enumerate().filter(|(i, _)| r == 0 || (i + 1 >= lo && i + 1 <= hi)).map(|(_, ch)| *ch).collect();
         let width: usize = shown.iter().map(|ch| if *ch == '\t' { 4 } else { 1 }).sum();
         // (the renderer's limit of 140 columns includes the label text after the marker)
         width > 100
-    })
+    });
+    // (the renderer also trims the margin when every line that shows anything starts with a long
+    // run of blanks - 7 tabs were enough in a libFuzzer document)
+    let indents: Vec<usize> = (from..=to)
+        .filter_map(|k| {
+            let l = &lines[k - 1];
+            let lead: usize = l.chars().take_while(|ch| *ch == ' ' || *ch == '\t').map(|ch| if ch == '\t' { 4 } else { 1 }).sum();
+            if l.chars().all(|ch| ch == ' ' || ch == '\t') { None } else { Some(lead) }
+        })
+        .collect();
+    let deep_margin = !indents.is_empty() && indents.iter().all(|w| *w >= 16);
+    wide || deep_margin
 }
 
 fn check_case(c: &Case) -> Result<Notes, String> {
